@@ -706,9 +706,13 @@ class InspectFunction(object):
 
         def fetch(dep: DDSPath) -> PyHash:
             key = gctx.resolved_references.get(dep)
-            assert (
-                key is not None
-            ), f"Missing dep {dep} for {fun_path}: {call_stack} {gctx.resolved_references}"
+            if key is None:
+                raise DDSException(
+                    f"The path {dep} is loaded by {fun_path} before it is produced in this evaluation"
+                    f" (call stack: {call_stack}). Suggestion: produce the path (dds.keep or data"
+                    f" function) before the call that loads it.",
+                    DDSErrorCode.STORE_PATH_NOT_FOUND,
+                )
             return key
 
         indirect_deps_sigs = dict([(dep, fetch(dep)) for dep in indirect_dep])
